@@ -1,6 +1,6 @@
 (* C15 - Publish never blocks and every undelivered message is accounted for.
    Property theorems only.  Model: Model/Pub.v (after fix F11: the callbacks are invoked). *)
-From Coq Require Import List Arith Bool Lia.
+From Coq Require Import List Arith Bool Lia ZArith.
 From TC.Model Require Import Pub.
 From TC.Proofs Require Import PubInv PubC06 PubC15.
 Import ListNotations.
@@ -97,8 +97,8 @@ End C15.
 
 (* ---------- non-vacuity ---------- *)
 Definition ex15 : list (label nat) :=
-  [ Subscribe 1 (fun _ => true) 2 true true;          (* s0: buffer 1, timeout 2, both callbacks *)
-    Subscribe 1 Nat.even 50 true true;                (* s1: buffer 1, even only, timeout 50 *)
+  [ Subscribe 1 (fun _ => true) 2%Z true true;          (* s0: buffer 1, timeout 2, both callbacks *)
+    Subscribe 1 Nat.even 50%Z true true;                (* s1: buffer 1, even only, timeout 50 *)
     PubBegin 1; Visit 0 0; Visit 0 1; PubEnd 0;       (* 1: s0 accepts, s1 rejects -> OnFiltered *)
     PubBegin 2; Visit 1 1; Visit 1 0; PubEnd 1;
     Enter 0 0; Enter 1 0; Enter 1 1; Deliver 0 0; Deliver 1 1;   (* buffers absorb one each; (1,s0) waits *)
@@ -112,11 +112,21 @@ Proof. vm_compute. reflexivity. Qed.
 
 (* an open call in a state with full buffers and nobody receiving can still finish by itself *)
 Example ex15_open_call :
-  match run init [Subscribe 0 (fun _ => true) 9 false false; Subscribe 1 (fun _ : nat => true) 9 false false;
+  match run init [Subscribe 0 (fun _ => true) 9%Z false false; Subscribe 1 (fun _ : nat => true) 9%Z false false;
                   PubBegin 7; Visit 0 1] with
   | Some st => (todo st 0, popen st 0)
   | None => ([], false)
   end = ([0], true).
+Proof. vm_compute. reflexivity. Qed.
+
+(* zero and negative timeouts (time.After(d) fires at once for d <= 0): the effective timeout is max(0, d);
+   a surplus message of a never-receiving subscriber times out without any Tick, OnTimeout is called *)
+Example ex15_nonpositive_timeout :
+  option_map (fun st => (s_tmo (subs st 0), s_tmo (subs st 1), s_buf (subs st 0), cbT st, pair st 1 0, pair st 0 1, now st, measure st))
+             (run init [ Subscribe 1 (fun _ : nat => true) 0%Z false true; Subscribe 0 (fun _ => true) (-50)%Z false true;
+                         PubBegin 7; Visit 0 0; Visit 0 1; PubEnd 0; PubBegin 8; Visit 1 0; Visit 1 1; PubEnd 1;
+                         Enter 0 0; Deliver 0 0; Enter 0 1; Enter 1 0; Enter 1 1; Timeout 1 0; Timeout 0 1; Timeout 1 1 ])
+  = Some (0, 0, [(0, 7)], [(0, 1, 8); (1, 0, 7); (1, 1, 8)], PTimedOut, PTimedOut, 0, 0).
 Proof. vm_compute. reflexivity. Qed.
 
 Print Assumptions C15_nonblocking.
